@@ -1065,3 +1065,566 @@ def c09_cli_hostile(ctx):
     c09_forged_keys(ctx)
     c09_keyring_locations(ctx)
     c09_r3_keyring_values(ctx)
+
+
+# =========================================================================== round 6 families (C14 .. C17)
+# ---- C14: SETS of names that stand in an order relation to each other ----------------------------------------------------------
+def r6_name_sets(ctx):
+    """[(kind, [names])]: names whose relation to EACH OTHER matters to a reader that sorts, searches, compares by prefix or cuts a
+    line: mixed-case initials (byte order differs from case-blind order), names that are prefixes of one another, names that
+    contain the format's own punctuation ('#', '=', '[', ']') and agree up to it.  All are distinct legal names."""
+    rng = ctx.rng
+    words = ["alice", "bob", "carol", "dave", "erin", "frank", "gina", "zed", "mallory", "yan", "oscar", "peggy"]
+    sets = [("mixed-case", ["alice", "Bob", "carol", "Dave", "erin"]), ("mixed-case", ["Zed", "amy", "_x", "Yan", "bob"]),
+            ("prefix", ["alice-work", "alice", "al"]), ("prefix", ["key10", "key1", "key"]), ("prefix", ["Name", "Name = n", "N"]),
+            ("punctuation", ["plain", "ops #1", "ops #2"]), ("punctuation", ["build#7", "build", "#1 key", "# key"]),
+            ("punctuation", ["a=b", "a", "a =c", "=a"]), ("punctuation", ["[Key]x", "[Key", "x [Key]", "]"])]
+    for _ in range(6 if ctx.thorough() else 2):
+        ws = rng.sample(words, rng.randint(3, 5))
+        sets.append(("mixed-case", [w_.capitalize() if rng.random() < 0.5 else (w_.upper() if rng.random() < 0.2 else w_) for w_ in ws]))
+        base = rng.choice(words)
+        chain = [base]
+        for _ in range(rng.randint(1, 3)):
+            chain.append(chain[-1] + rng.choice(["-work", "2", " jr", "_", "#", "=", " ", "\u00e9"]) + rng.choice(["", "x", "1"]))
+        chain = [pc.rust_trim(c) for c in chain]
+        if len(set(chain)) == len(chain):
+            sets.append(("prefix", chain))
+        p = rng.choice(["#", "=", "[", "]", " # ", " = "])
+        stem = rng.choice(words)
+        sets.append(("punctuation", [stem + p + "1", stem + p + "2", stem]))
+    return sets
+
+
+@timed
+def r6_c14_related_names(self, ctx, states, hid):
+    """C14 over name SETS with an order relation, generated into one file in several ORDERS (quick: the given order, its reverse and, for
+    the larger sets, a random one; thorough: up to 24 permutations): judged by C14.judge_all, then EVERY generated key is used through -k F with its own
+    password (key k encrypts to key k+1, which decrypts and reports the sender by name)."""
+    import itertools
+    rng = ctx.rng
+    plain = [st for st in states if st[0] in ("absent", "empty", "one-key-newline", "one-key-no-newline", "comments", "two-keys")]
+    plans = []
+    for kind, names in r6_name_sets(ctx):
+        perms = list(itertools.permutations(names))
+        if ctx.thorough():
+            orders = [perms[0], perms[-1]] + rng.sample(perms, min(len(perms), 22))
+        else:
+            orders = [perms[0], perms[-1]] + ([rng.choice(perms)] if kind == "mixed-case" or len(names) > 3 else [])
+        seen = set()
+        for o in orders:
+            if o in seen:
+                continue
+            seen.add(o)
+            plans.append({"h": hid, "state": plain[hid % len(plain)], "names": list(o), "pws": [("pw %d" % i).encode() for i in range(len(o))],
+                          "rt": False, "pt": ctx.rbytes(rng.choice([1, 300])), "r6kind": kind})
+            hid += 1
+    w = pc.World(prefix="kv_c14r6_")
+    try:
+        recs = pmap(lambda pl: self.one_history(w, pl), plans)
+        self.judge_all(ctx, recs)
+        uses = []
+        for rec in recs:
+            pl = rec["plan"]
+            count(ctx, "name-sets:" + pl["r6kind"])
+            if not all(r.rc == 0 for r in rec["runs"]):
+                continue
+            w.write("pt%d" % pl["h"], pl["pt"])
+            n = len(pl["names"])
+            for k in range(n):
+                uses.append({"rec": rec, "k": k, "to": (k + 1) % n})
+
+        def use(u):
+            pl = u["rec"]["plan"]
+            h, k, t = pl["h"], u["k"], u["to"]
+            f = "kr%d.txt" % h
+            e = w.run(["encrypt", "pt%d" % h, "-t", pl["names"][t], "-f", pl["names"][k], "-o", "u%d_%d.ct" % (h, k), "-k", f, "--env-pass"], env=pc.env_pw(pl["pws"][k]))
+            d = w.run(["decrypt", "u%d_%d.ct" % (h, k), "-t", pl["names"][t], "-o", "u%d_%d.out" % (h, k), "-k", f, "--env-pass"], env=pc.env_pw(pl["pws"][t]))
+            u.update(runs=(e, d), out=w.read("u%d_%d.out" % (h, k)))
+            return u
+        for u in pmap(use, uses):
+            rec = u["rec"]
+            pl = rec["plan"]
+            e, d = u["runs"]
+            a, b = pl["names"][u["k"]], pl["names"][u["to"]]
+            sc = ("C14 history %d: key generate -o F for the names %r in this order (F initially %s); then key %r encrypts to key %r through -k F"
+                  % (pl["h"], pl["names"], pl["state"][0], a, b))
+            count(ctx, "name-sets:use-every-key")
+            self.judge(ctx, e.rc == 0 and d.rc == 0 and u["out"] == pl["pt"] and ("Success. File from: " + a) in d.errtext(), sc, rec["runs"] + [e, d],
+                       "every key generated so far is present and usable with its own password, under its own name: %r encrypts to %r, which decrypts "
+                       "and reports the sender by name" % (a, b),
+                       "exit %d/%d plaintext equal: %s stderr: %r" % (e.rc, d.rc, u["out"] == pl["pt"], (e.errtext() + d.errtext())[-300:]))
+        ctx.evaluations += w.nruns
+        count(ctx, "proc:runs", w.nruns)
+    finally:
+        w.close()
+    return len(plans)
+
+
+# ---- C15: changes to SEVERAL bytes of a locked key; strings of 112 characters that are not 112 base64 characters; what a process
+# ---- did before has no influence on an unlock
+R6_ODD_CHARS = [("Cyrillic capital A", "\u0410"), ("Cyrillic capital ER", "\u0420"), ("Greek capital TAU", "\u03a4"), ("fullwidth digit 0", "\uff10"),
+                ("e-acute", "\u00e9"), ("Arabic-Indic digit 3", "\u0663"), ("CJK", "\u5c71"), ("superscript 2", "\u00b2"), ("one half", "\u00bd"),
+                ("Roman numeral 8", "\u2167"), ("fullwidth A", "\uff21"), ("mathematical bold A", "\U0001d400"), ("combining acute", "\u0301"),
+                ("no-break space", "\u00a0"), ("zero-width space", "\u200b"), ("soft hyphen", "\u00ad"), ("emoji", "\U0001F511"), ("Kelvin sign", "\u212a"),
+                ("dotless i", "\u0131"), ("fullwidth plus", "\uff0b"), ("fullwidth solidus", "\uff0f"), ("NUL", "\u0000"), ("DEL", "\u007f")]
+
+
+def r6_c15_cases(self, ctx, S, pw, sk):
+    """S: a locked string (text bytes) of key sk under pw"""
+    import itertools
+    rng = ctx.rng
+    blob = pc.b64_lenient(S)
+    cases = []
+    if blob is None or len(blob) != 84:
+        return cases
+    var = []          # (tag, bytes)
+
+    def xor_at(b, idx, masks):
+        x = bytearray(b)
+        for i, m in zip(idx, masks):
+            x[i] ^= m
+        return bytes(x)
+    # the version field: the same mask on two / three / four bytes, different masks, every permutation of the four bytes
+    for k in (2, 3, 4):
+        for idx in itertools.combinations(range(4), k):
+            for m in (0x01, 0x20, rng.randrange(1, 256)):
+                var.append(("version-same-mask-%d-bytes" % k, xor_at(blob, idx, [m] * k)))
+            ms = [rng.randrange(1, 256) for _ in idx]
+            var.append(("version-masks-%d-bytes" % k, xor_at(blob, idx, ms)))
+            # masks whose XOR is zero / whose sum is zero mod 256
+            if k >= 3:
+                a_, b_ = rng.randrange(1, 256), rng.randrange(1, 256)
+                if a_ != b_:
+                    var.append(("version-masks-cancel-%d-bytes" % k, xor_at(blob, idx, ([a_, b_, a_ ^ b_] + [0])[:k])))
+    for p in itertools.permutations(range(4)):
+        if p != (0, 1, 2, 3):
+            var.append(("version-permuted", bytes(blob[i] for i in p) + blob[4:]))
+    var.append(("version-case", b"EGK0" + blob[4:]))
+    var.append(("version-case", b"EGk0" + blob[4:]))
+    # every field: two changed bits, two changed bytes with the same mask, two bytes swapped, the field reversed / rotated
+    fields = [("version", 0, 4), ("salt", 4, 36), ("ciphertext", 36, 68), ("tag", 68, 84)]
+    for name, lo, hi in fields:
+        for _ in range(6 if ctx.thorough() else 2):
+            i, j = rng.sample(range(lo, hi), 2)
+            var.append(("two-bits-" + name, xor_at(blob, (i, j), [1 << rng.randrange(8), 1 << rng.randrange(8)])))
+            m = rng.randrange(1, 256)
+            var.append(("same-mask-two-bytes-" + name, xor_at(blob, (i, j), [m, m])))
+            x = bytearray(blob)
+            x[i], x[j] = x[j], x[i]
+            var.append(("swap-two-bytes-" + name, bytes(x)))
+        var.append(("reversed-" + name, blob[:lo] + blob[lo:hi][::-1] + blob[hi:]))
+        var.append(("rotated-" + name, blob[:lo] + blob[lo + 1:hi] + blob[lo:lo + 1] + blob[hi:]))
+    # across fields: one bit in each of two fields; two fields exchanged (salt <-> ciphertext are both 32 bytes)
+    for (n1, l1, h1), (n2, l2, h2) in itertools.combinations(fields, 2):
+        var.append(("two-bits-%s+%s" % (n1, n2), xor_at(blob, (rng.randrange(l1, h1), rng.randrange(l2, h2)), [1 << rng.randrange(8), 1 << rng.randrange(8)])))
+    var.append(("salt-and-ciphertext-exchanged", blob[:4] + blob[36:68] + blob[4:36] + blob[68:]))
+    var.append(("tag-halves-exchanged", blob[:68] + blob[76:84] + blob[68:76]))
+    seen = set()
+    for tg, b in var:
+        if b == blob or b in seen:
+            continue
+        seen.add(b)
+        cases.append(pc.KCase("sk_unlock", s=base64.b64encode(b), pw=pw, oracle=pc.must_fail("a change to several of the 84 bytes (%s)" % tg),
+                              tags=["multi-change", "multi-change-" + tg.split("-")[0]]))
+    # ---- strings of 112 CHARACTERS / 112 BYTES one of which is not a base64 character (letters and digits of other scripts, marks,
+    # blanks, format characters): not well-formed, unlocking is an error - never a panic
+    picks = R6_ODD_CHARS if ctx.thorough() else rng.sample(R6_ODD_CHARS[:12], 7) + rng.sample(R6_ODD_CHARS[12:], 4)
+    T = S.decode("ascii")
+    for label, ch in picks:
+        pos = rng.choice([0, 1, 55, 110, 111, rng.randrange(112)])
+        forms = [("112 characters", T[:pos] + ch + T[pos + 1:])]
+        nb = len(ch.encode("utf-8"))
+        if nb > 1 and pos + nb <= 112:
+            forms.append(("112 bytes", T[:pos] + ch + T[pos + nb:]))
+        for what, m in forms:
+            mb = m.encode("utf-8")
+            cases.append(pc.KCase("sk_try", s=mb, tags=["odd-character", "odd-character-" + what.replace(" ", "-")],
+                                  oracle=(lambda r, label=label: None if r["code"] != 0 else
+                                          ("a string with a character outside the base64 alphabet (%s) is not a well-formed private key" % label, r["raw"][:200]))))
+            cases.append(pc.KCase("sk_unlock", s=mb, pw=pw, tags=["odd-character", "odd-character-" + what.replace(" ", "-")],
+                                  oracle=pc.must_fail("a string of %s with one %s in it" % (what, label))))
+    # the same inside a keyring (the parser against the model: Malformed private key)
+    pub = pc.c15_enc_pub(ctx.rbytes(32))
+    for label, ch in picks[:4]:
+        pos = rng.randrange(112)
+        cases.append(pc.KCase("kr_parse", text=pc.key_block(b"zed", pub, (T[:pos] + ch + T[pos + 1:]).encode("utf-8")), tags=["odd-character", "odd-character-keyring"],
+                              oracle=(lambda r, label=label: None if r["code"] != 0 else
+                                      ("a PrivateKey value with a character outside the base64 alphabet (%s) is malformed" % label, r["raw"][:200]))))
+    return cases
+
+
+@timed
+def r6_c15_sequences(self, ctx):
+    """The result of an unlock depends on the string and the password ONLY: sequences of unlock attempts in ONE process of the
+    in-process driver - k refused attempts (wrong passwords, damaged strings, strings of other lengths) then the right password, for
+    k = 1 .. 8, on two keys in turn."""
+    rng = ctx.rng
+    keys = [(ctx.rbytes(32), b"first pw", ctx.rbytes(32)), (ctx.rbytes(32), "zweites p\u00e4ss".encode("utf-8"), ctx.rbytes(32))]
+    S = pc.lock_keys(keys)
+    lines, want = [], []          # want: None = must fail, bytes = must give this key
+
+    def add(s, pw, exp, what):
+        lines.append("%d sk_unlock %s %s" % (len(lines), hexs(s), hexs(pw)))
+        want.append((exp, what))
+    ks = [1, 2, 3, 4, 6, 8] if ctx.thorough() else [1, 2, 3, rng.choice([4, 5, 6])]
+    for n, k in enumerate(ks):
+        sk, pw, salt = keys[n % 2]
+        s = S[n % 2]
+        blob = base64.b64decode(s)
+        for _ in range(k):
+            kind = rng.choice(["wrong-password", "wrong-password", "salt-bit", "ciphertext-bit", "tag-bit", "other-key-password"])
+            if kind == "wrong-password":
+                add(s, pw + bytes([rng.randrange(33, 127)]), None, "a wrong password")
+            elif kind == "other-key-password":
+                add(s, keys[1 - n % 2][1], None, "the password of another key")
+            else:
+                lo, hi = {"salt-bit": (4, 36), "ciphertext-bit": (36, 68), "tag-bit": (68, 84)}[kind]
+                add(base64.b64encode(pc.props.flip(blob, 8 * rng.randrange(lo, hi) + rng.randrange(8))), pw, None, "a string with one changed bit (%s)" % kind)
+        add(s, pw, sk, "the untouched string with its own password, after %d refused attempts in the same process" % k)
+    res = pc._drive(vlib.CLIDRV, lines, pc.DRV_ENV, 600)
+    ctx.evaluations += len(lines)
+    for i, (exp, what) in enumerate(want):
+        kv = {}
+        for p in res.get(str(i), "x outcome=missing").split()[1:]:
+            a_, _, b_ = p.partition("=")
+            kv[a_] = b_
+        ctx.oracle_checks += 1
+        count(ctx, "unlock-sequence:" + ("positive" if exp is not None else "refused"))
+        o = kv.get("outcome", "?")
+        ok = (o == "ok" and unhex(kv.get("out", "-")) == exp) if exp is not None else o.startswith("err")
+        if not ok:
+            ctx.violations.append({"input": {"kind": "proc", "scenario": "C15 unlock attempts in ONE process of the in-process driver (Keyring::unlock_private_key called "
+                                             "in sequence); attempt %d of %d: %s" % (i + 1, len(lines), what),
+                                             "commands": ["KESTREL_VERIF_DRIVER=1 clidrv <<< " + l for l in lines[:i + 1]]},
+                                   "expected": ("it unlocks to the original key %s: the result depends on the string and the password only" % exp.hex()) if exp is not None
+                                   else "unlocking fails with an error", "observed": " ".join("%s=%s" % kv_ for kv_ in kv.items())[:200], "finding_key": None})
+            break
+
+
+@timed
+def r6_c15_proc(self, ctx, S, pw, sk):
+    """the real program on altered strings: key extract-pub / key change-pass / a keyring's PrivateKey line"""
+    rng = ctx.rng
+    if not pc.c15_envable(pw):
+        return
+    blob = base64.b64decode(S)
+    T = S.decode("ascii")
+    alt = []
+    for p in rng.sample([(1, 0, 2, 3), (3, 2, 1, 0), (0, 1, 3, 2), (2, 3, 0, 1), (1, 2, 3, 0)], 2):
+        alt.append(("the version bytes permuted %r" % (p,), base64.b64encode(bytes(blob[i] for i in p) + blob[4:]).decode()))
+    m = rng.choice([0x01, 0x20, 0x80, rng.randrange(1, 256)])
+    i, j = rng.sample(range(4), 2)
+    x = bytearray(blob)
+    x[i] ^= m
+    x[j] ^= m
+    alt.append(("version bytes %d and %d both changed by the mask %02x" % (i, j, m), base64.b64encode(bytes(x)).decode()))
+    x = bytearray(blob)
+    for i in range(4):
+        x[i] ^= m
+    alt.append(("all four version bytes changed by the mask %02x" % m, base64.b64encode(bytes(x)).decode()))
+    for label, ch in rng.sample(R6_ODD_CHARS[:12], 3) + rng.sample(R6_ODD_CHARS[12:21], 1):
+        pos = rng.randrange(112)
+        alt.append(("character %d replaced by %s (112 characters)" % (pos, label), T[:pos] + ch + T[pos + 1:]))
+    w = pc.World(prefix="kv_c15r6_")
+    try:
+        w.write("pt", ctx.rbytes(100))
+        pub = pc.c15_enc_pub(pc.c16_x25519_pub(sk))
+        jobs = []
+        for n, (what, s) in enumerate(alt):
+            jobs.append((what, "extract-pub", ["key", "extract-pub", s, "--env-pass"], pc.env_pw(pw), None))
+            jobs.append((what, "change-pass", ["key", "change-pass", s, "--env-pass"], pc.env_pw(pw, b"a new password"), None))
+            if n % 2 == 0:
+                w.write("kr%d" % n, pc.key_block(b"zed", pub, s.encode("utf-8")))
+                jobs.append((what, "encrypt --from", ["encrypt", "pt", "-t", "zed", "-f", "zed", "-o", "ct%d" % n, "-k", "kr%d" % n, "--env-pass"], pc.env_pw(pw), "ct%d" % n))
+        runs = pmap(lambda j: w.run(j[2], env=j[3]), jobs)
+        for (what, cmd, argv, env, outf), r in zip(jobs, runs):
+            ctx.evaluations += 1
+            ctx.oracle_checks += 1
+            count(ctx, "gen:altered-string-proc-" + cmd.split()[0])
+            leaked = b"PublicKey" in r.out or b"PrivateKey" in r.out
+            bad = error_exit(r)
+            if bad is None and leaked:
+                bad = "exit 1 but a key on stdout: %r" % r.out[:120]
+            if bad is None and outf and w.read(outf) is not None:
+                bad = "exit 1 but the output file was written"
+            if bad is not None:
+                viol(ctx, "C15 altered locked key given to the program: %s, with the password of the original string; %s" % (what, cmd), [r],
+                     "the string is not the locked key that was written (or not a locked key at all): an error (exit 1, an Error: line), no key printed, nothing written",
+                     bad)
+    finally:
+        w.close()
+
+
+# ---- C16: passwords that are RELATED spellings of one another; the same change-pass command issued twice ------------------------
+def r6_password_pairs(ctx):
+    """[(kind, P0, P1)] different passwords (different RFC 2104 key images) that a lenient reader might identify: P0 is P1's UTF-8
+    read as ISO-8859-1 / Windows-1252 (mojibake), composed vs decomposed, fullwidth vs ASCII, case, a trailing blank, eszett vs ss"""
+    import unicodedata
+    rng = ctx.rng
+    base = ["\u00e9", "Gr\u00fc\u00dfe", "\u00f1and\u00fa", "p\u00e4ss", "na\u00efve caf\u00e9", "\u00c5ngstr\u00f6m", "\u00fcber 9", "s\u00f8ster"]
+    out = []
+    for b_ in base:
+        moj = b_.encode("utf-8").decode("latin-1")
+        out.append(("mojibake", moj, b_))
+        try:
+            m2 = b_.encode("utf-8").decode("cp1252")
+            if m2 != moj:
+                out.append(("mojibake-cp1252", m2, b_))
+        except UnicodeDecodeError:
+            pass
+        out.append(("double-mojibake", moj.encode("utf-8").decode("latin-1"), moj))
+        nfd = unicodedata.normalize("NFD", b_)
+        if nfd != b_:
+            out.append(("composed/decomposed", nfd, b_))
+        try:
+            out.append(("one-byte-spelling", b_.encode("latin-1"), b_))          # bytes: in-process only
+        except UnicodeEncodeError:
+            pass
+    out += [("fullwidth", "\uff50\uff57\uff11", "pw1"), ("case", "Hackme", "hackme"), ("eszett", "stra\u00dfe", "strasse"), ("trailing-blank", "pw ", "pw"),
+            ("kelvin", "\u212a9", "K9"), ("utf16", "pw".encode("utf-16-le") + b"!", "pw!")]
+    res = []
+    for kind, a, b in out:
+        ab = a if isinstance(a, bytes) else a.encode("utf-8")
+        bb = b if isinstance(b, bytes) else b.encode("utf-8")
+        if pc.hmac_key(ab) != pc.hmac_key(bb):
+            res.append((kind, ab, bb))
+    return res
+
+
+def r6_c16_inproc(self, ctx):
+    """KCases: a key locked under P1 (by the independent writer where OpenSSL's scrypt is there) refuses the related password P0, in
+    both directions, and a change P0 -> P1 leaves a string that P0 no longer opens"""
+    rng = ctx.rng
+    pairs = r6_password_pairs(ctx)
+    if not ctx.thorough():
+        moj = [p for p in pairs if p[0].startswith("mojibake") or p[0] == "one-byte-spelling"]
+        rest = [p for p in pairs if p not in moj]
+        pairs = rng.sample(moj, min(4, len(moj))) + rng.sample(rest, min(4, len(rest)))
+    cases = []
+    items = []
+    for kind, p0, p1 in pairs:
+        sk = ctx.rbytes(32)
+        for a, b in ((p0, p1), (p1, p0)):
+            items.append((kind, sk, a, b, ctx.rbytes(32)))
+    locked = []
+    for kind, sk, a, b, salt in items:
+        blob = pc.c15_ref_blob(sk, b, salt)
+        locked.append(base64.b64encode(blob) if blob is not None else None)
+    miss = [i for i, l in enumerate(locked) if l is None]
+    if miss:
+        for i, l in zip(miss, pc.lock_keys([(items[i][1], items[i][3], items[i][4]) for i in miss])):
+            locked[i] = l
+    for (kind, sk, a, b, salt), s in zip(items, locked):
+        tg = ["related-passwords", "related-passwords-" + kind]
+        cases.append(pc.KCase("sk_unlock", s=s, pw=b, tags=tg,
+                              oracle=(lambda r, sk=sk: None if r["code"] == 0 and r["out"] == sk else
+                                      ("the newest string unlocks with the newest password to the original key", r["raw"][:200]))))
+        cases.append(pc.KCase("sk_unlock", s=s, pw=a, tags=tg,
+                              oracle=pc.must_fail("an earlier password (%r) that differs from the newest (%r) [%s]" % (a, b, kind))))
+    return cases
+
+
+@timed
+def r6_c16_proc(self, ctx):
+    """process histories S0 --change-pass(P0 -> P1)--> S1 from a GIVEN key over related password pairs and ordinary ones, judged with the
+    independent unlock: the same change-pass command issued a SECOND time on the newest string (its old password is now an earlier
+    one) is refused; issued again on S0 it succeeds with yet another salt; any wrong old password is refused also when the requested
+    new password is the current one; extract-pub / decrypt refuse the earlier password."""
+    rng = ctx.rng
+    pairs = [p for p in r6_password_pairs(ctx) if pc.c15_envable(p[1]) and pc.c15_envable(p[2])]
+    moj = [p for p in pairs if p[0].startswith(("mojibake", "double"))]
+    rest = [p for p in pairs if p not in moj]
+    sel = (moj + rest) if ctx.thorough() else rng.sample(moj, min(3, len(moj))) + rng.sample(rest, min(2, len(rest)))
+    sel = list(sel) + [("ordinary", b"first password", b"second password"), ("ordinary", b"", b"x"), ("ordinary", rng.choice(pc.WS_PASSWORDS), b"b")]
+    sel = [p for p in sel if pc.hmac_key(p[1]) != pc.hmac_key(p[2])]
+    w = pc.World(prefix="kv_c16r6_")
+    try:
+        plans = []
+        for h, (kind, p0, p1) in enumerate(sel):
+            if h % 2 and kind != "ordinary":
+                pass
+            sk = ctx.rbytes(32)
+            plans.append({"h": h, "kind": kind, "p0": p0, "p1": p1, "sk": sk, "pub": pc.c15_enc_pub(pc.c16_x25519_pub(sk)),
+                          "S0": self.surr_lock(sk, p0, ctx.rbytes(32)), "wrong": rng.choice([b"not the password", p1 + b"x", p0 + p1 + b"!"]),
+                          "pt": ctx.rbytes(64)})
+
+        def one(pl):
+            h = pl["h"]
+            R = {}
+            S0 = pl["S0"].decode()
+            R["change"] = w.run(["key", "change-pass", S0, "--env-pass"], env=pc.env_pw(pl["p0"], pl["p1"]))
+            out = R["change"].out
+            if R["change"].rc != 0 or not out.startswith(b"PrivateKey = ") or not out.endswith(b"\n"):
+                return pl, R, None
+            S1 = out[len(b"PrivateKey = "):-1]
+            s1 = S1.decode("ascii", "replace")
+            R["again-on-newest"] = w.run(["key", "change-pass", s1, "--env-pass"], env=pc.env_pw(pl["p0"], pl["p1"]))
+            R["again-on-first"] = w.run(["key", "change-pass", S0, "--env-pass"], env=pc.env_pw(pl["p0"], pl["p1"]))
+            R["wrong-old-new-is-current"] = w.run(["key", "change-pass", s1, "--env-pass"], env=pc.env_pw(pl["wrong"], pl["p1"]))
+            R["extract-earlier"] = w.run(["key", "extract-pub", s1, "--env-pass"], env=pc.env_pw(pl["p0"]))
+            R["extract-newest"] = w.run(["key", "extract-pub", s1, "--env-pass"], env=pc.env_pw(pl["p1"]))
+            w.write("kr%d" % h, pc.key_block(b"me", pl["pub"], S1))
+            w.write("pt%d" % h, pl["pt"])
+            R["encrypt-newest"] = w.run(["encrypt", "pt%d" % h, "-t", "me", "-f", "me", "-o", "ct%d" % h, "-k", "kr%d" % h, "--env-pass"], env=pc.env_pw(pl["p1"]))
+            R["decrypt-earlier"] = w.run(["decrypt", "ct%d" % h, "-t", "me", "-o", "bad%d" % h, "-k", "kr%d" % h, "--env-pass"], env=pc.env_pw(pl["p0"]))
+            R["encrypt-earlier"] = w.run(["encrypt", "pt%d" % h, "-t", "me", "-f", "me", "-o", "badct%d" % h, "-k", "kr%d" % h, "--env-pass"], env=pc.env_pw(pl["p0"]))
+            R["decrypt-newest"] = w.run(["decrypt", "ct%d" % h, "-t", "me", "-o", "out%d" % h, "-k", "kr%d" % h, "--env-pass"], env=pc.env_pw(pl["p1"]))
+            return pl, R, S1
+        for pl, R, S1 in pmap(one, plans):
+            h = pl["h"]
+            sc = "C16 password change %r -> %r (%s) of a given key, then the same command again" % (pl["p0"], pl["p1"], pl["kind"])
+            count(ctx, "related-histories:" + pl["kind"])
+            allr = list(R.values())
+
+            def J(ok, runs, expected, observed):
+                ctx.oracle_checks += 1
+                if not ok:
+                    viol(ctx, sc, runs, expected, observed)
+                return ok
+            if not J(S1 is not None, allr, "change-pass with the password of the string succeeds and prints one PrivateKey line",
+                     "exit %d stdout %r" % (R["change"].rc, R["change"].out[:100])):
+                continue
+            u1, u0 = pc.c16_unlock(S1, pl["p1"]), pc.c16_unlock(S1, pl["p0"])
+            J(u1 == ("ok", pl["sk"]), [R["change"]], "the newest string unlocks with the newest password to the original key", "%s" % (u1[0],))
+            J(u0[0] != "ok", [R["change"]], "the earlier password no longer unlocks the newest string", "it unlocks it")
+            salt0, salt1 = base64.b64decode(pl["S0"])[4:36], (pc.b64_lenient(S1) or bytes(84))[4:36]
+            J(salt1 != salt0, [R["change"]], "every change uses a new salt", "salt %s kept" % salt1.hex())
+            for key, what in (("again-on-newest", "the same change-pass command issued again on the NEWEST string: its old password is an earlier password now"),
+                              ("wrong-old-new-is-current", "a wrong old password (%r), the requested new password being the current one" % pl["wrong"]),
+                              ("extract-earlier", "extract-pub of the newest string with the earlier password")):
+                r = R[key]
+                J(r.rc == 1 and r.out == b"" and "Error:" in r.errtext(), [R["change"], r], what + ": exit 1, an Error: message, nothing on stdout",
+                  "exit %d stdout %r stderr %r" % (r.rc, r.out[:100], r.errtext()[-120:]))
+            r = R["again-on-first"]
+            ok = r.rc == 0 and r.out.startswith(b"PrivateKey = ") and r.out.endswith(b"\n")
+            if J(ok, [R["change"], r], "the same change-pass command on the FIRST string succeeds again", "exit %d stdout %r" % (r.rc, r.out[:100])):
+                S2 = r.out[len(b"PrivateKey = "):-1]
+                u2 = pc.c16_unlock(S2, pl["p1"])
+                salt2 = (pc.b64_lenient(S2) or bytes(84))[4:36]
+                J(u2 == ("ok", pl["sk"]) and salt2 not in (salt0, salt1), [R["change"], r],
+                  "it prints a string that unlocks under the new password to the original key, with a salt not used before", "%s, salt %s (earlier salts %s, %s)" % (u2[0], salt2.hex(), salt0.hex(), salt1.hex()))
+            r = R["extract-newest"]
+            J(r.rc == 0 and r.out == b"PublicKey = " + pl["pub"] + b"\n", [r], "extract-pub with the newest password prints the public key of the private key", "exit %d stdout %r" % (r.rc, r.out[:100]))
+            e, d = R["encrypt-newest"], R["decrypt-newest"]
+            J(e.rc == 0 and d.rc == 0 and w.read("out%d" % h) == pl["pt"], [e, d], "the re-locked key encrypts and decrypts under the newest password", "exit %d/%d" % (e.rc, d.rc))
+            for key, outf in (("decrypt-earlier", "bad%d" % h), ("encrypt-earlier", "badct%d" % h)):
+                r = R[key]
+                J(r.rc == 1 and w.read(outf) is None, [R["change"], r], "%s with the earlier password: an error exit, no output file" % key.split("-")[0],
+                  "exit %d, output file %s, stderr %r" % (r.rc, "written" if w.read(outf) is not None else "absent", r.errtext()[-120:]))
+            for key, r in R.items():
+                for what, needle in pc.secret_forms(pl["sk"]):
+                    ctx.oracle_checks += 1
+                    if needle in r.out and not key.startswith("decrypt") or needle in r.err:
+                        viol(ctx, sc, [r], "the raw private key never appears in any output", "%s of the private key found in the output of %s" % (what, key))
+        ctx.evaluations += w.nruns
+        count(ctx, "proc:runs", w.nruns)
+    finally:
+        w.close()
+
+
+# ---- C17: each of the four checksum bytes, for every key a command uses ---------------------------------------------------------
+def r6_c17_checksum_cases(self, ctx):
+    """pk_decode on encodings whose checksum differs from SHA-256(key)[0..4] in exactly one byte (each of the four), in every subset of
+    the four bytes, or whose key differs while the checksum stays"""
+    import itertools
+    rng = ctx.rng
+    cases = []
+    for _ in range(6 if ctx.thorough() else 2):
+        pk = ctx.rbytes(32)
+        blob = pk + hashlib.sha256(pk).digest()[:4]
+        var = []
+        for k in (1, 2, 3, 4):
+            for idx in itertools.combinations(range(32, 36), k):
+                masks = [[rng.randrange(1, 256) for _ in idx]]
+                if k == 1:
+                    masks += [[0x01], [0x80]]
+                for ms in masks:
+                    x = bytearray(blob)
+                    for i, m in zip(idx, ms):
+                        x[i] ^= m
+                    var.append(("checksum-bytes-%s" % "+".join(str(i - 32) for i in idx), bytes(x)))
+        for _ in range(3):
+            x = bytearray(blob)
+            x[rng.randrange(32)] ^= 1 << rng.randrange(8)
+            var.append(("key-bit", bytes(x)))
+        var.append(("checksum-rotated", blob[:32] + blob[33:36] + blob[32:33]))
+        var.append(("checksum-reversed", blob[:32] + blob[32:36][::-1]))
+        var.append(("checksum-of-the-encoding", pk + hashlib.sha256(base64.b64encode(pk)).digest()[:4]))
+        var.append(("checksum-last-4-of-sha256", pk + hashlib.sha256(pk).digest()[-4:]))
+        for tg, b in var:
+            if b == blob:
+                continue
+            cases.append(pc.KCase("pk_decode", s=base64.b64encode(b), tags=["checksum-byte", "checksum-byte-" + tg.split("-")[0] + "-" + tg.split("-")[1]],
+                                  oracle=(lambda r, tg=tg: None if r["code"] != 0 else
+                                          ("an encoded key is usable only if its checksum matches (%s changed)" % tg, r["raw"][:200]))))
+    return cases
+
+
+@timed
+def r6_c17_checksum_commands(self, ctx):
+    """the real program given generated-style keyrings in which the PublicKey line of ONE section the command uses - the recipient of
+    encrypt, the SENDER of encrypt, the recipient of decrypt - carries an encoding whose checksum does not match (each checksum byte
+    separately, several, the key bytes; still the base64 of 36 bytes, so the file parses): the command ends with an error and writes
+    nothing.  The untouched keyring is the positive control."""
+    rng = ctx.rng
+    ks = pc.make_keys(ctx, 2)
+    S = pc.lock_keys([(ks[0][0], b"pw-me", ctx.rbytes(32)), (ks[1][0], b"pw-bob", ctx.rbytes(32))])
+    secs = [(b"me", ks[0][2], S[0]), (b"bob", ks[1][2], S[1])]
+
+    def damaged(enc):
+        blob = bytearray(base64.b64decode(enc))
+        out = []
+        for i in range(32, 36):
+            x = bytearray(blob)
+            x[i] ^= rng.choice([0x01, 0x80, rng.randrange(1, 256)])
+            out.append(("checksum byte %d changed" % (i - 32), bytes(x)))
+        x = bytearray(blob)
+        for i in rng.sample(range(32, 36), rng.choice([2, 3])):
+            x[i] ^= rng.randrange(1, 256)
+        out.append(("several checksum bytes changed", bytes(x)))
+        x = bytearray(blob)
+        x[rng.randrange(32)] ^= 1 << rng.randrange(8)
+        out.append(("one bit of the key changed, checksum kept", bytes(x)))
+        other = ctx.rbytes(32)
+        out.append(("another key with this key's checksum", other + bytes(blob[32:])))
+        return [(what, base64.b64encode(b)) for what, b in out if b != bytes(blob)]
+    w = pc.World(prefix="kv_c17r6_")
+    try:
+        w.write("pt", ctx.rbytes(150))
+        good = b"\n".join(sec_np(*e) for e in secs)
+        w.write("kr_good", good)
+        e0 = w.run(["encrypt", "pt", "-t", "bob", "-f", "me", "-o", "ct_good", "-k", "kr_good", "--env-pass"], env=pc.env_pw(b"pw-me"))
+        d0 = w.run(["decrypt", "ct_good", "-t", "bob", "-o", "out_good", "-k", "kr_good", "--env-pass"], env=pc.env_pw(b"pw-bob"))
+        ctx.oracle_checks += 1
+        if not (e0.rc == 0 and d0.rc == 0 and w.read("out_good") == w.read("pt")):
+            viol(ctx, "C17 checksum through the commands: the untouched keyring", [e0, d0], "encrypt from 'me' to 'bob' and decrypt as 'bob' succeed",
+                 "exit %d/%d" % (e0.rc, d0.rc))
+            return
+        jobs = []
+        for role, who in (("recipient of encrypt", 1), ("sender of encrypt", 0), ("recipient of decrypt", 1)):
+            for what, enc in damaged(secs[who][1]):
+                n = len(jobs)
+                s2 = list(secs)
+                s2[who] = (secs[who][0], enc, secs[who][2])
+                order = s2 if n % 2 == 0 else s2[::-1]
+                w.write("kr%d" % n, b"\n".join((sec_np if n % 3 else sec_pn)(*e) for e in order))
+                if role.endswith("encrypt"):
+                    argv, env, outf = ["encrypt", "pt", "-t", "bob", "-f", "me", "-o", "ct%d" % n, "-k", "kr%d" % n, "--env-pass"], pc.env_pw(b"pw-me"), "ct%d" % n
+                else:
+                    argv, env, outf = ["decrypt", "ct_good", "-t", "bob", "-o", "out%d" % n, "-k", "kr%d" % n, "--env-pass"], pc.env_pw(b"pw-bob"), "out%d" % n
+                jobs.append({"role": role, "what": what, "argv": argv, "env": env, "outf": outf, "enc": enc, "n": n})
+        runs = pmap(lambda j: w.run(j["argv"], env=j["env"]), jobs)
+        for j, r in zip(jobs, runs):
+            ctx.oracle_checks += 1
+            count(ctx, "checksum-through-commands:" + j["role"])
+            bad = error_exit(r)
+            if bad is None and w.read(j["outf"]) is not None:
+                bad = "exit 1 but the output file was written"
+            if bad is not None:
+                viol(ctx, "C17 checksum through the commands: keyring whose section of the %s has PublicKey = %s (%s)" % (j["role"], j["enc"].decode(), j["what"]),
+                     [r], "an encoded public key is usable only if its 4-byte checksum matches: the command that uses this section ends with an error "
+                     "(exit 1, an Error: line) and writes nothing", bad, extra={"keyring": (w.read("kr%d" % j["n"]) or b"").decode("utf-8", "replace")})
+        ctx.evaluations += w.nruns
+        count(ctx, "proc:runs", w.nruns)
+    finally:
+        w.close()
